@@ -206,3 +206,63 @@ def second_opinion(ck, jobs, expect, progs, prog_of, name, pick, limit=8, pp_log
         if v == "ACCEPTED": acc.append((nm, over))
         elif v.startswith("ERROR"): raise BuildError(f"real-prover second opinion failed on {nm}: {v}")
     return acc
+
+
+def rewired_raw_instance(snap, first=6):
+    """Deviating prover for an honest run on a FALSE input: every arithmetic-only row the honest assignment leaves
+    unsatisfied is repaired by re-wiring ONE of its cells (one that is shared with a widget-selected row or the row
+    after it) to a fresh witness holding the value that solves the row.  Every row of the result holds; only the
+    compiled copy constraint between the re-wired cell and the widget cell is violated.
+    Returns (script body in raw rows, number of re-wired cells) or None when nothing needed / could be repaired."""
+    g = snap.gates
+    region = set()
+    for i, (sel, wires) in enumerate(g):
+        if any(sel[7:11]):
+            region.update((i, i + 1))
+    region_wits = {w for i in region if i < len(g) for w in g[i][1] if w >= first}
+    wits = list(snap.wits)
+    rows = [list(wires) for _, wires in g]
+    rewired = 0
+    for i, (sel, wires) in enumerate(g):
+        if i < 4 or any(sel[7:11]) or not sel[6]: continue
+        qm, ql, qr, qo, qf, qc = sel[:6]
+        pi = snap.pis.get(i, 0)
+        a, b, c, d = (wits[w] for w in wires)
+        val = (qm * a * b + ql * a + qr * b + qo * c + qf * d + qc + pi) % R
+        if val == 0: continue
+        fixed = False
+        for pos, coef in ((0, ql), (1, qr), (2, qo), (3, qf)):
+            if qm and pos in (0, 1): continue
+            if coef % R == 0 or wires[pos] not in region_wits: continue
+            if list(wires).count(wires[pos]) != 1: continue
+            cur = wits[wires[pos]]
+            new = (cur - val * pow(coef, R - 2, R)) % R
+            wits.append(new); rows[i][pos] = len(wits) - 1
+            rewired += 1; fixed = True
+            break
+        if not fixed: return None
+    if not rewired: return None
+    body = ["w " + hx(v) for v in wits[first:]]
+    for i in range(4, len(g)):
+        sel = g[i][0]
+        co = list(sel[:6]) + [snap.pis.get(i, 0)] + list(sel[6:11])
+        body.append("raw " + " ".join(hx(x) for x in co) + (" 1 " if i in snap.pis else " 0 ") + " ".join(str(x) for x in rows[i]))
+    return body, rewired
+
+
+def rewired_prover_verdicts(cases, name, pp_log=12):
+    """cases: [(id, honest body (true statement, same layout), raw body of the deviating prover)] -> {id: verdict}"""
+    from . import protocol
+    S = protocol.Script(); S.cmd("pp", "pp", 1 << pp_log, 3)
+    ids = {}
+    for cid, honest, raw in cases:
+        S.circuit("A" + cid, [l for l in honest if l != "snap"]); S.circuit("B" + cid, raw)
+        ids[cid] = (S.cmd("compile", "k" + cid, "pp", "7e", "A" + cid), S.cmd("prove", "p" + cid, "k" + cid, "B" + cid, 67), S.cmd("verify", "k" + cid, "p" + cid, "="))
+    res = protocol.run(S, name)
+    out = {}
+    for cid, (c1, c2, c3) in ids.items():
+        if not res[c1].startswith("OK"): out[cid] = "ERROR:compile " + res[c1][:80]
+        elif "InvalidCircuitSize" in res[c2]: out[cid] = "ERROR:size " + res[c2][:80]
+        elif res[c2].startswith("OK") and res[c3].startswith("OK"): out[cid] = "ACCEPTED"
+        else: out[cid] = "REJECTED"
+    return out
